@@ -58,7 +58,7 @@ func runC0809(prop, tier string) int {
 	dl := ev.NewDeadline(ev.EnvDur("VERIF_BUDGET", map[bool]time.Duration{true: 150 * time.Second, false: 20 * time.Minute}[quick]))
 	engines := []string{"mem-skiplist", "pebble"}
 	if !quick {
-		engines = []string{"mem-skiplist", "pebble", "mem-btree", "rocksdb"}
+		engines = []string{"mem-skiplist", "pebble", "mem-btree"} // not rocksdb: see DESIGN.md 9.1 (sandbox librocksdb aborts on its own debug assertions)
 	}
 	oracles := []storemc.Oracle{storemc.C09Oracle}
 	if prop == "C08" {
@@ -155,7 +155,7 @@ func runC13(tier string) int {
 	dl := ev.NewDeadline(ev.EnvDur("VERIF_BUDGET", map[bool]time.Duration{true: 150 * time.Second, false: 20 * time.Minute}[quick]))
 	engines := []string{"mem-skiplist", "pebble"}
 	if !quick {
-		engines = []string{"mem-skiplist", "pebble", "mem-btree", "rocksdb"}
+		engines = []string{"mem-skiplist", "pebble", "mem-btree"} // not rocksdb: see DESIGN.md 9.1 (sandbox librocksdb aborts on its own debug assertions)
 	}
 	var mu sync.Mutex
 	var tot storemc.ScanStats
@@ -220,7 +220,7 @@ func runC12(tier string) int {
 	fmt.Printf("[C12] codec: encodings=%d collections=%d tables=%d round-trips=%d order-pairs=%d %.1fs\n", cs.Encodings, cs.Collections, cs.Tables, cs.RoundTrips, cs.OrderPairs, time.Since(t0).Seconds())
 	engines := []string{"mem-skiplist", "pebble"}
 	if !quick {
-		engines = []string{"mem-skiplist", "pebble", "mem-btree", "rocksdb"}
+		engines = []string{"mem-skiplist", "pebble", "mem-btree"} // not rocksdb: see DESIGN.md 9.1 (sandbox librocksdb aborts on its own debug assertions)
 	}
 	var mu sync.Mutex
 	var tot storemc.IsoStats
@@ -317,7 +317,7 @@ func runC14(tier string) int {
 	}
 	runs := []run{{"mem-skiplist", 3, storemc.BackupPool[:8], true}, {"pebble", 2, storemc.BackupPool, true}}
 	if !quick {
-		runs = []run{{"mem-skiplist", 4, storemc.BackupPool, true}, {"pebble", 3, storemc.BackupPool, true}, {"mem-btree", 3, storemc.BackupPool, false}, {"rocksdb", 2, storemc.BackupPool[:8], true}}
+		runs = []run{{"mem-skiplist", 4, storemc.BackupPool, true}, {"pebble", 3, storemc.BackupPool, true}, {"mem-btree", 3, storemc.BackupPool, false}}
 	}
 	var mu sync.Mutex
 	var wg sync.WaitGroup
